@@ -321,8 +321,11 @@ func execFail(s *ev.Shard, b *sandbox.Box, c FailCase) *rp.Fail {
 	anyGone := false
 	for _, t := range c.Tasks {
 		anyGone = anyGone || t.GoneDep
-		for _, st := range t.Cmds {
+		for ci, st := range t.Cmds {
 			anyGone = anyGone || st == -1 // a line that stops the whole run: which tasks the next run reaches is not fixed
+			if st != 0 && ci < len(t.How) && (t.How[ci] == "noexec" || t.How[ci] == "badinterp") {
+				anyGone = true // a program that cannot be started stops the whole run as well
+			}
 		}
 	}
 	if len(F) == 1 && !anyGone {
